@@ -801,3 +801,6 @@ LEVEL_NOTE = ("in-process metamorphic oracle plus differential comparison of 5 c
               "randomisation on one machine / one CPython build")
 TECHNIQUE = ("Hypothesis configurations + metamorphic oracle (order, add/remove, history, fallback equality, refusal) "
              "+ differential execution across interpreter processes with different PYTHONHASHSEED")
+
+
+RULE = RULE + " " + 'Later additions: chained StreamSeedUpdater as fallback, replaced later; replaced seed list of a name; seed lists configured after the updater was built; generator object replaced under its name.'
